@@ -362,7 +362,9 @@ func (x *Exec) execCall(instr ssa.Value, c *ssa.CallCommon, st *State, pc Term) 
 		args = append(args, x.argValue(a, callee, st))
 	}
 	if x.fc != nil && x.fc.CallAsserts != nil && callee.Pkg != nil {
-		for _, ca := range x.fc.CallAsserts[callee.RelString(callee.Pkg.Pkg)] {
+		cas := append([]*Clause(nil), x.fc.CallAsserts[callee.RelString(callee.Pkg.Pkg)]...)
+		cas = append(cas, x.fc.CallAsserts[calleeName(callee)]...)
+		for _, ca := range cas {
 			env := &Env{x: x, cur: st, old: x.entry, vars: map[string]SVal{}, pkg: x.pkg, fn: x.fn}
 			for k, v := range x.params {
 				env.vars[k] = v
@@ -487,6 +489,16 @@ func (x *Exec) applyExtern(instr ssa.Value, name string, rs *types.Tuple, args [
 		env.cur, env.old = pre, pre
 		fr := x.evalModifies(cfc, env)
 		x.havocFrame(st, fr, name)
+		for _, cl := range cfc.Walkrels {
+			renv := &Env{x: x, cur: st, old: pre, vars: map[string]SVal{}, pkg: cbFn.Pkg.Pkg}
+			x.vc.assume(implies(pc, x.evalClause(renv, cl)), "walk relation "+cl.Name+" of the callback, over the whole walk")
+		}
+		x.cbPred = ""
+		if cfc.Walkpost != nil {
+			x.cbPred = cfc.Walkpost.Pred
+			x.trusted["extern "+name+": summarised by the per-entry postcondition "+cfc.Walkpost.Pred+" of its callback (the callback establishes it for its own entry and provably keeps it for every other entry; that the walk calls it once per entry and returns nil only if every call did is the documented behaviour, assumed)"] = true
+		}
+		defer func() { x.cbPred = "" }()
 		for i := 0; i < rs.Len(); i++ {
 			results = append(results, x.vc.fresh("ext_"+lastSeg(name), x.w.sortOf(rs.At(i).Type())))
 		}
@@ -544,6 +556,9 @@ func (x *Exec) applyExtern(instr ssa.Value, name string, rs *types.Tuple, args [
 			x.nsafety++
 			x.vc.oblige(&Obligation{Name: fmt.Sprintf("%s.call(%s).requires#%d", x.fnName(), name, x.nsafety), Kind: "requires-at-call", Tags: c.Tags, Goal: goal, PC: pc, Src: c.Src, Pos: pos, Observe: x.observations()})
 		}
+		if name == "(*sync.Mutex).Unlock" {
+			x.lockRelease(st, pc, pos)
+		}
 		if len(ex.Modifies) > 0 {
 			pre := st.clone()
 			env.cur, env.old = pre, pre
@@ -557,8 +572,116 @@ func (x *Exec) applyExtern(instr ssa.Value, name string, rs *types.Tuple, args [
 		for _, c := range ex.Ensures {
 			x.vc.assume(implies(pc, x.evalClause(env, c)), "assumed contract of "+name)
 		}
+		if name == "(*sync.Mutex).Lock" {
+			x.lockAcquire(st, pc, pos)
+		}
 	}
 	x.setResult(instr, results)
+}
+
+// ghostState: a copy of st in which every declared ghost variable has a fresh arbitrary value
+func (x *Exec) ghostState(st *State, tag string) *State {
+	n := st.clone()
+	for _, gd := range x.eng.cf.Ghosts {
+		ty := x.resolveType(gd.Type, x.pkg)
+		n.ghosts[gd.Name] = x.vc.fresh("G_"+gd.Name+"_"+tag, x.w.sortOfS(ty))
+	}
+	return n
+}
+
+// walkrelObligations: each `walkrel` is used at the call of the walking extern as the relation between the state before and
+// after ANY number of callback calls; that is sound only if it is reflexive and transitive - checked here over three
+// arbitrary ghost states (the heap is the same in all three: a walkrel may only relate ghost state).
+func (x *Exec) walkrelObligations(penv *Env) {
+	a, b, c := x.ghostState(x.entry, "A"), x.ghostState(x.entry, "B"), x.ghostState(x.entry, "C")
+	rel := func(cl *Clause, from, to *State) Term {
+		// no parameters, no lets in scope: a walk relation must not depend on one particular call
+		env := &Env{x: x, cur: to, old: from, vars: map[string]SVal{}, pkg: x.pkg}
+		return x.evalClause(env, cl)
+	}
+	for _, cl := range x.fc.Walkrels {
+		x.vc.oblige(&Obligation{Name: cl.Name + ".reflexive", Kind: "walk-relation", Tags: cl.Tags, Goal: rel(cl, a, a), PC: tTrue, Src: "reflexive: " + cl.Src})
+		x.vc.oblige(&Obligation{Name: cl.Name + ".transitive", Kind: "walk-relation", Tags: cl.Tags, Goal: implies(and(rel(cl, a, b), rel(cl, b, c)), rel(cl, a, c)), PC: tTrue, Src: "transitive: " + cl.Src})
+	}
+}
+
+// lockOwner: the call's receiver is the mutex held in field MUTEX of a named struct for which a `lockinv` is declared
+func (x *Exec) lockOwner() (*LockInv, ssa.Value, *types.Pointer) {
+	c := x.curCall
+	if c == nil || len(c.Args) == 0 {
+		return nil, nil, nil
+	}
+	base, sn, f, ok := guardedBase(c.Args[0])
+	if !ok {
+		return nil, nil, nil
+	}
+	if _, isLookup := c.Args[0].(*ssa.Lookup); isLookup {
+		return nil, nil, nil
+	}
+	for _, li := range x.eng.cf.LockInvs {
+		if li.Struct == sn && li.Mutex == f {
+			return li, base, base.Type().Underlying().(*types.Pointer)
+		}
+	}
+	return nil, nil, nil
+}
+
+// lockAcquire: other goroutines may have run critical sections of this mutex: every field it guards takes an arbitrary value
+// (for a reference: not one of the objects this function allocated itself), then the monitor invariant is assumed.
+// Objects REACHABLE from those fields keep their contents (listed as an assumption).
+func (x *Exec) lockAcquire(st *State, pc Term, pos string) {
+	li, base, pt := x.lockOwner()
+	if li == nil {
+		return
+	}
+	stt := pt.Elem().Underlying().(*types.Struct)
+	conc := x.ghostGet(st, "concurrent")
+	bv := x.val(base)
+	for _, g := range x.eng.cf.Guarded {
+		if g.Struct != li.Struct || g.Mutex != li.Mutex {
+			continue
+		}
+		var fs []string
+		for f := range g.Fields {
+			fs = append(fs, f)
+		}
+		sort.Strings(fs)
+		for _, f := range fs {
+			fi := fieldIndex(stt, f)
+			if fi < 0 {
+				ufail("lockinv: %s has no field %s", li.Struct, f)
+			}
+			hn, hs := x.fieldHeap(pt.Elem(), fi)
+			h := x.heapGet(st, hn, hs)
+			old := sel(h, bv)
+			nv := x.vc.fresh("acq_"+f, old.Sort)
+			if old.Sort == SRef {
+				as := arraySort(SRef, SBool)
+				al := x.heapGet(st, allocHeap, as)
+				al0 := x.heapGet(x.entry, allocHeap, as)
+				x.vc.assume(implies(sel(al, nv), sel(al0, nv)), "a handle published by another goroutine is not an object allocated here")
+				x.heapSet(st, allocHeap, sto(al, nv, or(sel(al, nv), not(eq(nv, tNil)))))
+			}
+			x.heapSet(st, hn, sto(h, bv, ite(conc, nv, old)))
+		}
+	}
+	env := x.newEnv(st, x.entry)
+	env.vars[li.Var] = SVal{T: bv, Ty: goT(base.Type())}
+	x.vc.assume(implies(and(pc, conc), x.evalClause(env, li.C)), "monitor invariant of "+li.Struct+"."+li.Mutex+" at Lock")
+	x.trusted["acquire of "+li.Struct+"."+li.Mutex+": fields guarded by it become arbitrary (monitor invariant assumed); objects reachable from them are NOT havocked"] = true
+}
+
+// lockRelease: the monitor invariant is an obligation at Unlock
+func (x *Exec) lockRelease(st *State, pc Term, pos string) {
+	li, base, _ := x.lockOwner()
+	if li == nil {
+		return
+	}
+	env := x.newEnv(st, x.entry)
+	env.vars[li.Var] = SVal{T: x.val(base), Ty: goT(base.Type())}
+	goal := x.evalClause(env, li.C)
+	x.nsafety++
+	x.vc.oblige(&Obligation{Name: fmt.Sprintf("%s.%s.at-unlock#%d", x.fnName(), li.C.Name, x.nsafety), Kind: "lock-invariant", Tags: li.C.Tags, Goal: goal, PC: pc, Src: li.C.Src, Pos: pos, Observe: x.observations()})
 }
 
 // deepHavoc: the object at ptr (of type t) and everything reachable from it by type becomes arbitrary.
@@ -774,7 +897,17 @@ func (x *Exec) execBuiltin(instr ssa.Value, b *ssa.Builtin, c *ssa.CallCommon, s
 			ufail("len of %s", a.Type())
 		}
 	case "delete":
+		if bs, sn, f, ok := guardedBase(c.Args[0]); ok {
+			x.guardedWrite(bs, sn, f, st, pc, c.Pos())
+		}
 		mt := c.Args[0].Type().Underlying().(*types.Map)
+		x.siteAssertsAt("mapdelete", mt, x.val(c.Args[0]), x.val(c.Args[1]), nil, st, pc, c.Pos())
+		if x.rpOn {
+			if mp := x.valPath(c.Args[0], 0); mp != nil && basicName(mt.Key()) != "" {
+				kt := x.val(c.Args[1])
+				x.rpEmit("delete", mp.with(rpSeg{KT: basicName(mt.Key()), t: &kt}), tTrue, "bool", pc)
+			}
+		}
 		x.mapDelete(st, mt, x.val(c.Args[0]), x.val(c.Args[1]))
 	case "append":
 		sl := x.val(c.Args[0])
@@ -884,6 +1017,7 @@ func (x *Exec) recvEnv(v Term, t types.Type, pc Term, st *State) {
 
 func (x *Exec) verify() {
 	fn := x.fn
+	x.rpOn = x.rpReplayable(fn)
 	x.computeEscapes()
 	x.computeOrder()
 	x.entry = newState()
@@ -929,6 +1063,9 @@ func (x *Exec) verify() {
 		}
 		for _, c := range x.fc.Requires {
 			x.vc.assume(x.evalClause(env, c), "precondition "+c.Name)
+		}
+		if len(x.fc.Walkrels) > 0 {
+			x.walkrelObligations(env)
 		}
 		if len(x.fc.GhostEntry) > 0 {
 			// ghost code at function entry (the body then runs from the updated ghost state; `old` is the state before)
